@@ -1808,11 +1808,25 @@ class MultiWorld:
                 return await conn.forward_remote_path_to_port(lpath, dhost,
                                                               dport)
             raise ValueError(kind)
-        try:
-            lsn = loop.run_until_complete(go())
-        except (OSError, asyncssh.ChannelListenError):
-            loop.run_until_idle()
-            return False
+        lsn = None
+        for attempt in (0, 1):
+            try:
+                lsn = loop.run_until_complete(go())
+                break
+            except (OSError, asyncssh.ChannelListenError):
+                loop.run_until_idle()
+                ours = any(self.cfg[j]['port'] == c['port'] and
+                           self.cfg[j]['host'] == c['host'] and
+                           self.cfg[j]['kind'] not in ('lpath', 'rpath')
+                           for j in self.open_slots)
+                if attempt or ours or c['port'] not in self.fixed or \
+                        any(self.cfg[j]['port'] == c['port']
+                            for j in self.open_slots | self.closed_slots
+                            if j != k):
+                    return False
+                # somebody else on this machine took the probed port
+                self.fixed[c['port']] = _free_ports(1)[0]
+                port = self.fixed[c['port']]
         loop.run_until_idle()
         if lsn is None:
             return False
@@ -1986,6 +2000,11 @@ def replay_listeners(steps, nslots=4, dst_variant=0):
             elif op in ('connect', 'cclosed'):
                 if k not in w.addr:
                     div = f'{op} {k}: listener was never created'
+                elif op == 'cclosed' and any(w.addr[j] == w.addr[k]
+                                             for j in w.open_slots):
+                    # the OS gave the freed dynamic port to a newer listener:
+                    # the address is not a closed listener's any more
+                    res['script'].append(f'{op}{k}:reused')
                 else:
                     got = w.connect(k)
                     res['script'].append(f'{op}{k}->{got}')
